@@ -93,6 +93,10 @@ func init() {
 	layerDefs["state"] = layerDef{700, 30000, func(r *prng.R, c int) progSpec {
 		p := &Prog{}
 		for i := 0; i < r.Range(1, 2); i++ {
+			if r.Chance(1, 3) {
+				p.Funcs = append(p.Funcs, genStateIdiom(r, fmt.Sprintf("f%d", i)))
+				continue
+			}
 			p.Funcs = append(p.Funcs, genStmtFunc(r, fmt.Sprintf("f%d", i), true))
 		}
 		return progSpec{prog: p, nseq: 8}
